@@ -254,13 +254,17 @@ func (w *world) effects(before, after *snapshot, resps []proto.Message) effectSe
 
 // grantedAuth looks for a session id or a token in the responses and finds out, by using it, what it is good for.
 func (w *world) grantedAuth(resps []proto.Message, out effectSet) (sessionIDs, tokens []string) {
+	w.lastSessionID, w.lastTxID = "", ""
 	for _, m := range resps {
 		m.ProtoReflect().Range(func(fd protoreflect.FieldDescriptor, v protoreflect.Value) bool {
 			if fd.Kind() != protoreflect.StringKind || fd.IsList() || v.String() == "" {
 				return true
 			}
 			switch string(fd.Name()) {
+			case "transactionID":
+				w.lastTxID = v.String()
 			case "sessionID":
+				w.lastSessionID = v.String()
 				if sess, err := w.srv.SessManager.GetSession(v.String()); err == nil {
 					out[effect{"auth", classOfDB(sess.GetDatabase().GetName())}] = true
 					sessionIDs = append(sessionIDs, v.String())
